@@ -8,7 +8,7 @@ Import ListNotations.
    v1 client has none) the two clients make the same state transition and answer with the same result class *)
 Theorem C17_same_transition_and_class :
   forall lm lu c o,
-    names_ok o = true -> (match o with OBatchGet _ => False | _ => True end) ->
+    names_ok o = true -> (match o with OBatchGet _ _ => False | _ => True end) ->
     fst (step lm lu V1 c o) = fst (step lm lu V2 c o) /\
     o_res (snd (step lm lu V1 c o)) = o_res (snd (step lm lu V2 c o)).
 Proof. exact clients_same_transition. Qed.
